@@ -411,7 +411,7 @@ def _decide(ob, tier, res):
         # the thorough tier is sized by total wall time: per-query and per-obligation caps (raise them through the
         # environment for a longer run; what is not decided within them is reported inconclusive)
         qcap = float(os.environ.get('SYMX_THOROUGH_QUERY_CAP_S', '150'))
-        bcap = float(os.environ.get('SYMX_THOROUGH_BUDGET_S', '480'))
+        bcap = float(os.environ.get('SYMX_THOROUGH_BUDGET_S', '360'))
         ob.timeout_s = max(ob.timeout_s, min(ob.timeout_thorough_s, qcap))
         budget = max(budget, min(getattr(ob, 'budget_thorough_s', 1200), bcap))
     smt.TRIG_SIGN_AXIOMS = bool(getattr(ob, 'trig_sign_axioms', False))
